@@ -68,6 +68,12 @@ CHECKS = {
         "Streams identified by value tuples; three known findings (O<n> name extending a label, label on a non-leaf user node, ambiguous suffix) excluded by input-only predicates.",
         "DESIGN.md section 5 C10",
     ),
+    "C13": (
+        "Hypothesis @given problems x graph options; geometric differential (Chebyshev point-to-polyline) between emitted graphs and the stored table slices",
+        "Generated-input search (800 quick / 20k thorough): every emitted point is a table row within display rounding and in order, every table row of the non-flat extent lies within 0.011 of the emitted polyline, segment colours follow the sign of the enthalpy change without mixed-sign segments, extents equal stream duties / Qh / Qc, and graph-set keys, names and types are as documented for every target incl. total-site sets.",
+        "The stored table slices are the reference (their correctness is C05/C07); records with non-unique names are skipped.",
+        "DESIGN.md section 5 C13",
+    ),
     "C17": (
         "Hypothesis @given polylines (targeted on deviation); geometric oracle (point-to-polyline distance, one-sided bound) written in the harness",
         "Generated-input search (3k+400 quick / 100k+10k thorough): clean_composite_curve must return a subsequence covering the whole non-flat extent with every dropped point within 1e-6 of the kept polyline; get_piecewise_data_points must keep both ends and the original order, leave every original point within the requested deviation and respect the hot/cold one-sided bound of a tenth of it.",
